@@ -8,7 +8,9 @@ use crate::{
     CompilationError, VecErr,
 };
 
-use super::{new_err, Callable, Compile, FunctionArguments, TypeLayout};
+use super::{
+    new_err, Callable, Compile, Dependencies, Dependency, FunctionArguments, TypeLayout,
+};
 
 #[derive(Debug)]
 pub(crate) enum DotLookupOption {
@@ -30,6 +32,24 @@ pub(crate) struct DotLookup<'a> {
 #[derive(Debug)]
 pub(crate) struct DotChain {
     links: Vec<DotLookupOption>,
+}
+
+impl Dependencies for DotLookupOption {
+    fn dependencies(&self) -> Vec<Dependency> {
+        match self {
+            Self::Name { .. } => vec![],
+            Self::FunctionCall { arguments, .. } => arguments.net_dependencies(),
+        }
+    }
+}
+
+impl Dependencies for DotChain {
+    fn dependencies(&self) -> Vec<Dependency> {
+        self.links
+            .iter()
+            .flat_map(|link| link.net_dependencies())
+            .collect()
+    }
 }
 
 impl Compile for DotLookupOption {
